@@ -10,7 +10,11 @@
                                     flag = 1;  C16_callbacks_in_section_tl: same, "all but the first
                                     event of the segment"
      (c) C16_flag_clear_after_call  after every public call that did not hit a model error the flag
-                                    and use_cur_last_event_ts are 0 *)
+                                    and use_cur_last_event_ts are 0
+     C16_open_close_fn_preserve_flag  open_fn / close_fn return with the flag value they were
+                                    called with (all worlds)
+   The model includes "eager" platforms whose close callback opens the next packet itself
+   (a_eager): all statements cover them. *)
 From Coq Require Import List Arith Bool ZArith String.
 Import ListNotations.
 From BT.Base Require Import Bits.
@@ -51,6 +55,17 @@ Theorem C16_callbacks_in_section_tl :
 Proof. exact trace_fn_segment_tl. Qed.
 Print Assumptions C16_callbacks_in_section_tl.
 
+(* the opening and closing FUNCTIONS give the flag back as they found it, for every world (called
+   by the platform outside a tracing call: 0 -> 0; called from inside a tracing call, directly by
+   the platform's callbacks, also on an "eager" double-buffering platform: 1 -> 1), on every path
+   (disabled, already open / not open, effective) *)
+Theorem C16_open_close_fn_preserve_flag :
+  forall d w,
+    c_in_ts (w_c (open_fn d w)) = c_in_ts (w_c w) /\
+    c_in_ts (w_c (close_fn d w)) = c_in_ts (w_c w).
+Proof. exact (fun d w => conj (open_fn_flag d w) (close_fn_flag d w)). Qed.
+Print Assumptions C16_open_close_fn_preserve_flag.
+
 Theorem C16_flag_clear_after_call :
   forall d buf pcargs oracle h,
     w_err (run d buf pcargs oracle h) = false ->
@@ -68,3 +83,18 @@ Example C16_example :
   existsb (fun e => match e with ECb 1 true _ => true | _ => false end) (w_log ex_w) = true /\
   existsb (fun e => match e with ECb 2 true _ => true | _ => false end) (w_log ex_w) = true.
 Proof. vm_compute. repeat split; reflexivity. Qed.
+
+(* non-vacuity for eager platforms: in this run the close callback of a packet switch opens the
+   next packet itself, so the tracer's open callback - hence the opening function - runs on an
+   already open packet INSIDE a tracing call (`ECb 1 true true`); the call still ends with the flag
+   cleared and all stores carry flag = 1 *)
+Example C16_example_eager :
+  let w := run ex_d2 17 [] (repeat default_ans 7 ++ [mk_ans false None None 1 true])%list
+               [COpen; CTrace 0 []; CTrace 0 []; CTrace 0 []; CTrace 0 []; CTrace 0 []] in
+  w_err w = false /\ In (ECb 1 true true) (w_log w) /\ c_in_ts (w_c w) = false /\ c_open (w_c w) = true /\
+  forallb (fun e => match e with EStore f => f | _ => true end) (w_log w) = true.
+Proof.
+  cbv zeta. split; [vm_compute; reflexivity|].
+  split; [vm_compute; repeat (first [left; reflexivity | right])|].
+  vm_compute. repeat split; reflexivity.
+Qed.
